@@ -3,14 +3,14 @@
 # confirms a seeded change in its scratch worktree (builds, existing tests pass, demo fails with / passes without),
 # then runs the /verif check for the property against /repo with the patch applied, and undoes it.
 set -u
-id=$1; ddir=$2; pat=$3
+id=$1; ddir=$2; pat=$3; xflags=${4:-}
 export GOFLAGS=-mod=mod GOPROXY=off GOSUMDB=off GOTOOLCHAIN=local GOCACHE=/verif/.cache/gocache
 wt=/tmp/seed/$id/repo; out=/tmp/seed/$id/out
 PID=$(echo $id | tr a-z A-Z)
 cd $wt && git checkout -q -- . && git clean -qfd
 echo "== demo on unchanged code (expect PASS)"
 cp $out/demo/*_test.go $wt/$ddir/ 2>/dev/null
-(cd $wt/$ddir && timeout 600 go test -count=1 -run "$pat" . 2>&1 | tail -3)
+(cd $wt/$ddir && timeout 600 go test $xflags -count=1 -run "$pat" . 2>&1 | tail -3)
 git apply $out/patch.diff || { echo "PATCH DOES NOT APPLY"; exit 1; }
 echo "== build + existing tests with the change (expect ok)"
 (cd $wt && go build ./... && cd lib/go && go build ./... && go build -tags verif ./...) 2>&1 | tail -3
@@ -19,7 +19,7 @@ rm -f $wt/$ddir/zz_demo*_test.go
 (cd $wt/lib/go && timeout 900 go test -count=1 ./... 2>&1 | tail -2)
 echo "== demo with the change (expect FAIL)"
 cp $out/demo/*_test.go $wt/$ddir/
-(cd $wt/$ddir && timeout 600 go test -count=1 -run "$pat" . 2>&1 | tail -4)
+(cd $wt/$ddir && timeout 600 go test $xflags -count=1 -run "$pat" . 2>&1 | tail -4)
 cd $wt && git checkout -q -- . && git clean -qfd
 echo "== /verif check $PID against /repo with the patch (expect VIOLATION)"
 git -C /repo apply $out/patch.diff && (cd /verif && timeout 1500 python3 tools/check.py $PID 2>&1 | grep -v "^KNOWN" | tail -4 | cut -c1-300)
